@@ -12,7 +12,8 @@ EXTENDS Integers, FiniteSets, Sequences
 
 CONSTANTS Vals,      \* values written to ports
           Ports,     \* port addresses used by Out
-          CellVals   \* values written to memory
+          CellVals,  \* values written to memory
+          LockBit    \* 5 on the real machine; Paging128_neg.cfg uses 4 and must violate LockStable (vacuity guard)
 
 VARIABLES o7ffd, tr7ffd, slot0, slot3, cells
 vars == <<o7ffd, tr7ffd, slot0, slot3, cells>>
@@ -22,7 +23,7 @@ Pow2(n) == CASE n = 0 -> 1 [] n = 1 -> 2 [] n = 2 -> 4 [] n = 3 -> 8 [] n = 4 ->
 Bit(v, n) == (v \div Pow2(n)) % 2
 
 PortMatch(port) == Bit(port, 15) = 0 /\ Bit(port, 1) = 0
-Locked == Bit(tr7ffd, 5) = 1
+Locked == Bit(tr7ffd, LockBit) = 1
 
 RomOf(v) == 8 + Bit(v, 4)
 BankOf(v) == v % 8
